@@ -84,17 +84,24 @@ class KeywordTask:
         except OutOfSubset as e:
             res["status"] = "out-of-subset"
             res["detail"] = str(e)
-            from pyvc import driver
-            for mode, slot in (("verdict", "search"), ("errors", "search_errors")):
-                try:
-                    res[slot] = driver.rt_call("pyvc.rt_kw", {"cmd": "search", "mode": mode, "root": self.root, "draft": self.d, "keyword": self.k, "limit": 3}, self.root)
-                except Exception as e2:      # noqa
-                    res[slot] = {"error": str(e2)[-300:], "failures": []}
         except Exception as e:      # engine crash
             res["status"] = "crash"
             res["detail"] = "%s\n%s" % (e, traceback.format_exc())
+        if res["status"] != "ok":
+            self.failure_search(res)
         res["wall_s"] = round(time.time() - t0, 3)
         return res
+
+    def failure_search(self, res):
+        """directed search on the real code (verdicts and error structure) for this keyword"""
+        from pyvc import driver
+        for mode, slot in (("verdict", "search"), ("errors", "search_errors")):
+            if slot in res:
+                continue
+            try:
+                res[slot] = driver.rt_call("pyvc.rt_kw", {"cmd": "search", "mode": mode, "root": self.root, "draft": self.d, "keyword": self.k, "limit": 3}, self.root)
+            except Exception as e2:      # noqa
+                res[slot] = {"error": str(e2)[-300:], "failures": []}
 
     def _run(self, res):
         d, k = self.d, self.k
